@@ -14,7 +14,9 @@ class InfoFiles:
         info_dir = os.path.join(norm_path, 'info')
         try:
             for info_file in self.fs.list_files_in_dir(info_dir):
-                if not os.path.basename(info_file).endswith('.trashinfo'):
+                name = os.path.basename(info_file)
+                if not name.endswith('.trashinfo') or \
+                        name[:-len('.trashinfo')] in ('', '.', '..'):
                     yield ('non_trashinfo', info_file)
                 else:
                     yield ('trashinfo', info_file)
